@@ -42,7 +42,8 @@ ALPHA = ['<', '>', '"', "'", '&', '{', '}', 'a', '%', '!']
 PROBES = ['{e.__class__}', '{0}', '{url!r}', '{e.body.__class__.__mro__}', '{e.traceback}', '{exception}', '{{}}', '{',
           '</tt><script>alert(1)</script>', '"><img src=x onerror=alert(1)>', "'-alert(1)-'", '&lt;script&gt;', '&#60;b&#62;',
           '<!--', '--><b>', '<![CDATA[', '\\', '\\x3cb\\x3e', '%3Cb%3E', '&amp;lt;', 'javascript:alert(1)', '<b' + 'a' * 1200 + '>', '<script>x</script>' + 'a' * 1200, 'a' * 1100 + '<b>"', '<i>' * 300]
-POSITIONS = ['path', 'query', 'host', 'xfhost', 'xfproto']
+POSITIONS = ['path', 'query', 'host', 'xfhost', 'xfproto', 'requri', 'rawuri']     # requri / rawuri: the raw request target as some
+#                                                    servers record it in environ['REQUEST_URI'] / environ['RAW_URI']
 KINDS = ['404', '405', '400', '500', 'critical', '400path', '500data', 'criticaldm']     # criticaldm: the last-resort page of an application with a domain_map
 
 
@@ -179,6 +180,8 @@ class Apps:
         if kind == '400':
             kw = {'body': b'zz\r\n', 'chunked': True}
         env = wsgi.environ(method, path, qs=qs, headers=headers, **kw)
+        if pos in ('requri', 'rawuri'):
+            env['REQUEST_URI' if pos == 'requri' else 'RAW_URI'] = base + payload + '?q=' + payload
         return wsgi.call(self.app2 if kind == 'critical' else (self.app3 if kind == 'criticaldm' else self.app), env)
 
 
@@ -218,6 +221,8 @@ def judge(apps, kind, pos, payload, as_json, baseline, core_alphabet=True):
     if ev != baseline[0]:
         extra = [e for e in ev if e not in baseline[0]][:3]
         return 'markup-injected', f'HTML token sequence differs from the benign page; extra/different tokens {extra!r}'
+    if pos in ('requri', 'rawuri'):
+        return None     # whether a page shows the server's raw target at all is not specified; only markup is judged
     want = shown(pos, payload) if not kind.startswith('critical') else payload
     if kind.startswith('critical') and pos not in ('path', 'rawpath'):
         return None     # the last-resort page shows the path only
